@@ -203,6 +203,11 @@ func ruleConf(cs *Case) (string, bool) {
 		}
 		pos = arg
 	}
+	if cs.Op == "rx" {
+		// an earlier capturing rule leaves text in TX.0-9: a group of the rule under test that takes no part in the
+		// match (or matches the empty string) must not keep showing that text
+		sb.WriteString("SecRule REQUEST_HEADERS:Pre \"@rx (p)(q)(r)(s)(t)(u)(v)(w)(y)\" \"id:80,phase:1,pass,nolog,capture\"\n")
+	}
 	fmt.Fprintf(&sb, "SecRule REQUEST_HEADERS:X \"%s\" \"id:1,phase:1,pass,nolog,capture,setvar:tx.m1=1\"\n", pos)
 	fmt.Fprintf(&sb, "SecRule REQUEST_HEADERS:X \"!%s\" \"id:2,phase:1,pass,nolog,setvar:tx.m2=1\"\n", pos)
 	return sb.String(), true
@@ -237,9 +242,11 @@ func (r *ruleWAF) run(input string) *Obs {
 		tx = r.waf.NewTransaction()
 		tx.ProcessConnection("10.0.0.1", 1234, "10.0.0.2", 80)
 		tx.ProcessURI("/", "GET", "HTTP/1.1")
+		tx.AddRequestHeader("Pre", "pqrstuvwy")
 		tx.AddRequestHeader("X", input)
 		tx.ProcessRequestHeaders()
 		txm := tx.(plugintypes.TransactionState).Variables().TX()
+		o.Prefilled = strings.Contains(r.conf, "id:80,")
 		o.Res = len(txm.Get("m1")) > 0
 		o.Neg = len(txm.Get("m2")) > 0
 		for i := 0; i <= 9; i++ {
